@@ -434,6 +434,14 @@ fn after(op: &AOp, r: usize) {
         Kind::Load => "load",
         Kind::Store => "store",
         Kind::FetchAdd => "add",
+        Kind::FetchSub => "sub",
+        Kind::Swap => "swap",
+        Kind::CompareExchange => "cas",
+        Kind::FetchUpdate => "update",
+        Kind::FetchMax => "max",
+        Kind::FetchMin => "min",
+        Kind::FetchOr => "or",
+        Kind::FetchAnd => "and",
     };
     if MULTI.load(Ordering::SeqCst) {
         // one counter per iterator (slices and ranges); the accesses of a clone() are reported apart
@@ -538,6 +546,20 @@ fn consume<T: Val, V: ExactSizeIterator<Item = T>>(mut values: V, b: u64, k: u64
             }
             return (taken, 0);
         }
+        "nextfold" => {
+            // a partly consumed chunk, then internal iteration over the rest
+            if let Some(x) = values.next() {
+                taken.push((Some(b), x.value()));
+                kept.push(x);
+                let mut i = 1u64;
+                values.fold((), |_, y| {
+                    taken.push((Some(b.wrapping_add(i)), y.value()));
+                    kept.push(y);
+                    i += 1;
+                });
+            }
+            return (taken, 0);
+        }
         "foldpanic" => {
             // internal iteration of the chunk by a closure that panics at its k-th element, which it owns by then
             let mut i = 0u64;
@@ -613,8 +635,19 @@ where
                     let r: Option<(Option<u64>, I::Item)> = match v {
                         NVar::IdVal => it.next_id_and_value().map(|x| (Some(x.idx as u64), x.value)),
                         NVar::Val => it.next().map(|x| (None, x)),
-                        NVar::Values => it.values().next().map(|x| (None, x)),
-                        NVar::IdsValues => it.ids_and_values().next().map(|(i, x)| (Some(i as u64), x)),
+                        // the for-loop wrappers driven through the other methods of Iterator (style streams only)
+                        NVar::Values => match CHUNK_STYLE.with(|c| c.borrow().clone()).as_str() {
+                            "wnth" => it.values().nth(1).map(|x| (None, x)),
+                            "wskip" => it.values().skip(2).next().map(|x| (None, x)),
+                            "wstep" => it.values().step_by(3).nth(1).map(|x| (None, x)),
+                            _ => it.values().next().map(|x| (None, x)),
+                        },
+                        NVar::IdsValues => match CHUNK_STYLE.with(|c| c.borrow().clone()).as_str() {
+                            "wnth" => it.ids_and_values().nth(1).map(|(i, x)| (Some(i as u64), x)),
+                            "wskip" => it.ids_and_values().skip(2).next().map(|(i, x)| (Some(i as u64), x)),
+                            "wstep" => it.ids_and_values().step_by(3).nth(1).map(|(i, x)| (Some(i as u64), x)),
+                            _ => it.ids_and_values().next().map(|(i, x)| (Some(i as u64), x)),
+                        },
                     };
                     match r {
                         None => "none".into(),
